@@ -1976,7 +1976,12 @@ func (s *SweepingProvider) individualProvide(prefix bitstr.Key, keys []mh.Multih
 			// Put the key back in the provide queue.
 			s.failedProvide(prefix, keys, fmt.Errorf("individual provide failed for prefix '%s', %w", prefix, err))
 		}
-		if reprovide && err == nil {
+		if reprovide && err == nil && len(coveredPrefix) >= len(prefix) {
+			// Only narrow the prefix. A single lookup may cover a zone broader than
+			// the region (replication factor below the router's bucket size, or a
+			// shrinking swarm): rescheduling that broader prefix would unschedule
+			// the sibling regions below it, whose keys were NOT reprovided here, and
+			// they would skip a whole cycle.
 			prefix = coveredPrefix
 		}
 		provideErr = err
